@@ -393,7 +393,7 @@ def op_gene_knock_out(E, m, S):
 
 def op_objective(E, m, S):
     r = _rxn(E, m, pool=("R1", "R2", "DM_B"))
-    how = E.pick(S.tag("objective"), ["reaction", "id", "index", "dict", "Objective", "forward-only", "bad-id"])
+    how = E.pick(S.tag("objective"), ["reaction", "id", "index", "dict", "Objective", "forward-only", "bad-id", "empty-dict"])
     if how == "reaction":
         _try(S, "objective=reaction", lambda: setattr(m, "objective", r), ref=lambda R, i=r.id: R.set_objective({i: 1}), r=r.id)
     elif how == "id":
@@ -407,6 +407,9 @@ def op_objective(E, m, S):
         want = {r.id: x, other.id: -1} if other is not r else {r.id: x}
         _try(S, "objective=dict", lambda: setattr(m, "objective", {r: x, other: -1} if other is not r else {r: x}),
              ref=lambda R: R.set_objective(want), r=r.id)
+    elif how == "empty-dict":
+        # no coefficients at all: the model optimises nothing from here on (direction kept)
+        _try(S, "objective={}", lambda: setattr(m, "objective", {}), ref=lambda R: R.set_objective({}), r=r.id)
     elif how == "Objective":
         _try(S, "objective=Objective", lambda: setattr(m, "objective", m.problem.Objective(
             2.0 * r.flux_expression, direction="min")), r=r.id, ref=lambda R, i=r.id: R.set_objective({i: 2}, "min"))
